@@ -36,8 +36,8 @@ func newRoot() *core.BuildState {
 	if sharedConfig == nil {
 		sharedConfig = core.DefaultConfiguration()
 		sharedConfig.Build.Path = []string{"/usr/local/bin", "/usr/bin", "/bin"}
+		gologging.SetLevel(gologging.CRITICAL, "plz") // once: the level table is a plain map
 	}
-	gologging.SetLevel(gologging.CRITICAL, "plz")
 	state := core.NewBuildState(sharedConfig)
 	// Every BuildState owns a goroutine that, whenever no target is active for 5 s, runs cycle detection and dumps
 	// all goroutine stacks; with thousands of short-lived states that is quadratic. One target that stays
